@@ -111,10 +111,38 @@ theorem nocache_rerun_witness :
   constructor
   · intro hf
     simp [loadDepList, d, s, st0, c, mkT, loadOutputs, hf]
-    have hx' : (P.run ⟨[], 0, [], []⟩ (viewAt (fun l => if l = [100] then some d else none) d s.fs)).exit0 = true := hx
+    have hx' : (P.run ⟨[], 0, [], [], false⟩ (viewAt (fun l => if l = [100] then some d else none) d s.fs)).exit0 = true := hx
     simp [execTarget, d, mkT, s, c, checksPass, collect, viewAt] at hx' ⊢
     simp [hx']
   · intro hf
     simp [loadDepList, d, s, st0, c, mkT, loadOutputs, hf]
+
+/-- **load_fault_witness** (regression; fault while dependency outputs are loaded): `t` needs `d1` and `d2`; the
+    stored result of `d1` cannot be read. The unrepaired loop re-runs `d1` and returns: `d2` is still not materialised
+    when `t`'s command starts. The repaired loop carries on and loads `d2`. -/
+theorem load_fault_witness :
+    ∃ (defs : Defs) (s : BState Nat), (∃ ds, s.st [50] = some ds ∧ ds.ok = true ∧ ds.loaded = false) ∧ s.cache.res 1 = none ∧
+      ∀ (P : Params Nat) (cfg : Cfg), (P.run ⟨[], 0, [], [], false⟩ ⟨[], []⟩).exit0 = true →
+        (P.fx.loadFault = false → ∃ ds, (loadDepList P cfg defs 5 [[49], [50]] s).1.st [50] = some ds ∧ ds.loaded = false) ∧
+        (P.fx.loadFault = true → (loadDepList P cfg defs 5 [[49], [50]] s).2 = true ∧
+            ∃ ds, (loadDepList P cfg defs 5 [[49], [50]] s).1.st [50] = some ds ∧ ds.loaded = true) := by
+  let d1 : Target := mkT [49] [] [] false
+  let d2 : Target := mkT [50] [] [] false
+  let c : Cache Nat := { res := fun k => if k = 2 then some ⟨.self 2, []⟩ else none, cas := fun _ => false, taint := fun _ => false }
+  let st0 : Lbl → Option (TStat Nat) := fun l =>
+    if l = [49] then some ⟨true, some 1, some (.self 1), false⟩ else if l = [50] then some ⟨true, some 2, some (.self 2), false⟩ else none
+  let s : BState Nat := { fs := fun _ => none, cache := c, st := st0, log := [] }
+  refine ⟨fun l => if l = [49] then some d1 else if l = [50] then some d2 else none, s,
+    ⟨⟨true, some 2, some (.self 2), false⟩, by simp [s, st0], rfl, rfl⟩, by simp [s, c], ?_⟩
+  intro P cfg hx
+  have hx' : (P.run ⟨[], 0, [], [], false⟩ (viewAt (fun l => if l = [49] then some d1 else if l = [50] then some d2 else none) d1 s.fs)).exit0 = true := by
+    simpa [viewAt, d1, mkT] using hx
+  constructor
+  · intro hf
+    simp [loadDepList, d1, d2, s, st0, c, mkT, hf, execTarget, checksPass, collect, viewAt] at hx' ⊢
+    simp [hx', upd]
+  · intro hf
+    simp [loadDepList, d1, d2, s, st0, c, mkT, hf, execTarget, checksPass, collect, viewAt, loadOutputs, restore, validate, writeOuts] at hx' ⊢
+    simp [hx', upd]
 
 end Grog.C15
